@@ -96,10 +96,11 @@ var features = []feature{
 		roots: []string{"bt$", "ba$", "b$", "bb$"}, plain: []string{"bt$", "ba$"}},
 	{name: "arguments", code: 8,
 		setup: []string{`function ag$(x, y){ return {args: arguments, setx: function(v){ x = v }, getx: function(){ return x }, gety: function(){ return y }, sety: function(v){ y = v }} }`,
-			`var g$ = ag$(1, 2, 3); var g$1 = ag$('only'); var g$s = (function(a, b){ 'use strict'; return arguments })(1, 2);`},
-		muts:  []string{`g$.setx(9)`, `g$.args[0] = 7`, `delete g$.args[1]`, `g$.args[1] = 8`, `g$.sety('y2')`, `delete g$.args[0]`, `g$.args[2] = 'third'`, `g$.args.length = 1`, `g$1.args[1] = 'beyond'`, `g$1.setx('x1')`, `Object.defineProperty(g$.args, '0', {value: 'dp'})`, `Object.defineProperty(g$.args, '1', {writable: false})`, `g$.args.callee = null`, `g$s[0] = 5`},
-		q:     []string{`g$.args[0] + ',' + g$.args[1] + ',' + g$.args[2] + ',' + g$.args.length + ',' + g$.getx() + ',' + g$.gety()`, `(g$.args.callee === ag$) + ',' + Object.prototype.toString.call(g$.args) + ',' + Object.keys(g$.args).join()`, `g$1.args[0] + ',' + g$1.args[1] + ',' + g$1.getx() + ',' + g$1.gety() + ',' + g$1.args.length`, `g$s[0] + ',' + g$s.length`},
-		both:  []string{`g$.setx(9)`, `g$.args[1] = 8`, `delete g$.args[0]`, `g$.setx('after unmap')`},
+			`var g$ = ag$(1, 2, 3); var g$1 = ag$('only'); var g$s = (function(a, b){ 'use strict'; return arguments })(1, 2);`,
+			`function agf$(del){ return function(a, b, c, d){ for (var i = 0; i < del.length; i++) delete arguments[del[i]]; return {args: arguments, set: function(i, v){ if (i === 0) a = v; if (i === 1) b = v; if (i === 2) c = v; if (i === 3) d = v }, get: function(){ return [a, b, c, d].join('.') }} } }; var gsub$ = [], gfew$ = []; for (var m$ = 0; m$ < 8; m$++) { var del$ = []; for (var b$ = 0; b$ < 3; b$++) if (m$ & (1 << b$)) del$.push(b$); gsub$.push(agf$(del$)(10, 20, 30, 40, 50)); gfew$.push(agf$(del$)(10, 20)) } var gred$ = (function(a, b, c){ delete arguments[0]; arguments[0] = 'redefined'; delete arguments[1]; Object.defineProperty(arguments, '1', {value: 'dp', writable: true, enumerable: true, configurable: true}); return {args: arguments, setc: function(v){ c = v }, get: function(){ return [a, b, c].join('.') }} })(1, 2, 3);`},
+		muts:  []string{`g$.setx(9)`, `gsub$.forEach(function(o, i){ o.set(i % 4, 'p' + i) })`, `gsub$.forEach(function(o, i){ o.args[(i + 1) % 4] = 'a' + i })`, `gfew$.forEach(function(o, i){ o.set(i % 2, 'f' + i); o.args[1 - i % 2] = 'g' + i })`, `gsub$.forEach(function(o, i){ delete o.args[(i + 2) % 4] })`, `gred$.setc('c2'); gred$.args[2] = 'viaargs'`, `g$.args[0] = 7`, `delete g$.args[1]`, `g$.args[1] = 8`, `g$.sety('y2')`, `delete g$.args[0]`, `g$.args[2] = 'third'`, `g$.args.length = 1`, `g$1.args[1] = 'beyond'`, `g$1.setx('x1')`, `Object.defineProperty(g$.args, '0', {value: 'dp'})`, `Object.defineProperty(g$.args, '1', {writable: false})`, `g$.args.callee = null`, `g$s[0] = 5`},
+		q:     []string{`g$.args[0] + ',' + g$.args[1] + ',' + g$.args[2] + ',' + g$.args.length + ',' + g$.getx() + ',' + g$.gety()`, `gsub$.concat(gfew$, [gred$]).map(function(o){ var d = []; for (var i = 0; i < 5; i++) { var p = Object.getOwnPropertyDescriptor(o.args, String(i)); d.push(o.args[i] + (p ? (p.writable ? 'w' : '-') + String(p.value) : 'none')) } return d.join(',') + '/' + o.get() + '/' + o.args.length + '/' + Object.keys(o.args).join('') }).join('|')`, `(g$.args.callee === ag$) + ',' + Object.prototype.toString.call(g$.args) + ',' + Object.keys(g$.args).join()`, `g$1.args[0] + ',' + g$1.args[1] + ',' + g$1.getx() + ',' + g$1.gety() + ',' + g$1.args.length`, `g$s[0] + ',' + g$s.length`},
+		both:  []string{`g$.setx(9)`, `g$.args[1] = 8`, `delete g$.args[0]`, `g$.setx('after unmap')`, `gsub$.forEach(function(o, i){ o.set(0, 'A'); o.set(1, 'B'); o.set(2, 'C'); o.set(3, 'D') })`, `gsub$.forEach(function(o, i){ for (var k = 0; k < 4; k++) o.args[k] = 'x' + k })`, `gfew$.forEach(function(o){ o.set(0, 'F0'); o.args[1] = 'F1' })`},
 		roots: []string{"g$", "g$1"}, plain: []string{"g$", "g$1"}},
 	{name: "builtins", code: 9,
 		setup: []string{`Array.prototype.last$ = function(){ return this[this.length - 1] }; String.prototype.sh$ = function(){ return this + '!' }; Object.prototype.op$ = 'inherited'; Math.c$ = 42;`,
@@ -194,8 +195,9 @@ var features = []feature{
 	// name are reassigned afterwards on either side; stack, String(e), toString and the native accessors are read
 	{name: "errors", code: 22,
 		setup: []string{`var ee$ = {}; ee$.plain = new Error('plain$'); ee$.nomsg = new Error(); ee$.type = new TypeError('type$'); ee$.range = new RangeError('range$'); ee$.called = Error('called$');`,
-			`(function(){ function lvl2(){ throw new Error('thrown$') } function lvl1(){ lvl2() } try { lvl1() } catch (e) { ee$.thrown = e } try { null.x } catch (e) { ee$.tnull = e } try { undefinedVar$$ } catch (e) { ee$.ref = e } try { new Array(-1) } catch (e) { ee$.arr = e } try { decodeURIComponent('%') } catch (e) { ee$.uri = e } try { (void 0)() } catch (e) { ee$.call = e } })(); function My$(m){ this.message = m }; My$.prototype = new Error('proto$'); My$.prototype.name = 'My$'; ee$.custom = new My$('custom$');`},
-		muts:  []string{`ee$.plain.message = 'plain changed'`, `ee$.thrown.message = 'thrown changed'`, `ee$.tnull.message = 'tnull changed'`, `ee$.ref.message = 'ref changed'; ee$.ref.name = 'RefName'`, `ee$.type.name = 'Renamed'`, `ee$.nomsg.message = 'now has one'`, `delete ee$.range.message`, `ee$.arr.message = 42`, `ee$.uri.message = {toString: function(){ return 'objmsg' }}`, `ee$.call.message += ' +ctx'`, `My$.prototype.message = 'proto changed'`, `ee$.custom.message = 'custom changed'`, `Object.defineProperty(ee$.called, 'message', {get: function(){ return 'accessor message' }})`, `Error.prototype.name = 'BaseRenamed'`, `ee$.plain.stack`, `ee$.late = new Error('late$')`, `ee$.plain = ee$.thrown`},
+			`(function(){ function lvl2(){ throw new Error('thrown$') } function lvl1(){ lvl2() } try { lvl1() } catch (e) { ee$.thrown = e } try { null.x } catch (e) { ee$.tnull = e } try { undefinedVar$$ } catch (e) { ee$.ref = e } try { new Array(-1) } catch (e) { ee$.arr = e } try { decodeURIComponent('%') } catch (e) { ee$.uri = e } try { (void 0)() } catch (e) { ee$.call = e } })(); function My$(m){ this.message = m }; My$.prototype = new Error('proto$'); My$.prototype.name = 'My$'; ee$.custom = new My$('custom$');`,
+			`(function(){ function rec(n){ if (n === 0) throw new Error('deep$'); rec(n - 1) } function mk(n){ return n ? mk(n - 1) : new RangeError('made deep$') } function nul(n){ return n ? nul(n - 1) : null.x } function ping(n){ return n ? pong(n - 1) : (void 0)() } function pong(n){ return ping(n) } [1, 2, 4, 12].forEach(function(d){ try { rec(d) } catch (e) { ee$['rec' + d] = e } ee$['mk' + d] = mk(d); try { nul(d) } catch (e) { ee$['nul' + d] = e } try { ping(d) } catch (e) { ee$['ping' + d] = e } }); try { [1].forEach(function cb(){ rec(3) }) } catch (e) { ee$.viaNative = e } })();`},
+		muts:  []string{`ee$.plain.message = 'plain changed'`, `ee$.rec4.stack`, `ee$.rec12.stack; ee$.mk4.stack`, `ee$.rec2.message = 'rec changed'`, `ee$.nul4.stack; ee$.ping4.stack; ee$.viaNative.stack`, `ee$.thrown.message = 'thrown changed'`, `ee$.tnull.message = 'tnull changed'`, `ee$.ref.message = 'ref changed'; ee$.ref.name = 'RefName'`, `ee$.type.name = 'Renamed'`, `ee$.nomsg.message = 'now has one'`, `delete ee$.range.message`, `ee$.arr.message = 42`, `ee$.uri.message = {toString: function(){ return 'objmsg' }}`, `ee$.call.message += ' +ctx'`, `My$.prototype.message = 'proto changed'`, `ee$.custom.message = 'custom changed'`, `Object.defineProperty(ee$.called, 'message', {get: function(){ return 'accessor message' }})`, `Error.prototype.name = 'BaseRenamed'`, `ee$.plain.stack`, `ee$.late = new Error('late$')`, `ee$.plain = ee$.thrown`},
 		q:     []string{`Object.keys(ee$).map(function(k){ var e = ee$[k]; return k + ':' + e.name + ':' + e.message + ':' + String(e) + ':' + Error.prototype.toString.call(e) }).join('|')`, `Object.keys(ee$).map(function(k){ return String(ee$[k].stack) }).join('|')`, `Object.keys(ee$).map(function(k){ var e = ee$[k], d = Object.getOwnPropertyDescriptor(e, 'stack'); return (e instanceof Error) + (d ? typeof d.get + typeof d.set : 'nodesc') + (e.constructor ? Object.getPrototypeOf(e) === e.constructor.prototype : 'noctor') }).join()`},
 		both:  []string{`ee$.plain.message = 'plain changed'`, `ee$.tnull.message = 'tnull changed'`, `ee$.thrown.name = 'Renamed'`},
 		roots: []string{"ee$"}, plain: []string{"ee$"}},
@@ -207,6 +209,22 @@ var features = []feature{
 		q:     []string{`['re', 'rei', 'reg'].map(function(k){ var x = lit$[k](); return (x instanceof RegExp) + ',' + (Object.getPrototypeOf(x) === RegExp.prototype) + ',' + x.note + ',' + x.lastIndex + ',' + x.lt$ + ',' + (lit$[k]() === lit$[k]()) + ',' + x.source }).join('|')`, `(function(){ var a = lit$.arr(), o = lit$.obj(), f = lit$.fn(), n = lit$.nested(), l = lit$loop(); return [a instanceof Array, a.length, a[1].length, a.lt$, a[2] instanceof Object, o instanceof Object, o.inner.b, o.lt$, f instanceof Function, f.tag, f.lt$, f(), n[0] instanceof RegExp, n[1][0] instanceof RegExp, n[1][0].note, l[0] === l[1], l[0].note, l[2] instanceof RegExp, lit$first.note, lit$first instanceof RegExp, lit$.str()].join() })()`, `String(RegExp['\x241']) + ',' + String(RegExp.input)`},
 		both:  []string{`lit$.re().note = 'n'`, `lit$.re().lastIndex = 7`, `lit$.rei().test('X')`, `lit$.arr().push(4)`},
 		roots: []string{"lit$"}, plain: []string{"lit$"}},
+	// the global bindings of the built-ins themselves: aliased, given new members, members replaced, deleted, rebound
+	// before Copy().  The observation closure captures the reflection functions it needs first.  "globals" touches a
+	// subset that the other observations do not depend on; "globalsall" does it to EVERY own property of the global
+	// object (pinned only: it cripples everything else in its runtime).
+	{name: "globals", code: 23,
+		setup: []string{`var gq$ = (function(g){ var gOPN = Object.getOwnPropertyNames, gOPD = Object.getOwnPropertyDescriptor, keys = Object.keys, saved = {}, names = ['console', 'escape', 'unescape', 'isFinite', 'URIError', 'EvalError', 'encodeURI', 'decodeURI', 'encodeURIComponent', 'Infinity', 'NaN', 'undefined', 'parseFloat'];
+  names.forEach(function(n, i){ var v = g[n]; saved[n] = v; var isO = (typeof v === 'object' && v !== null) || typeof v === 'function';
+    if (i % 4 === 0 && isO) { v.tag$ = 'tag' + i; var k = gOPN(v)[0]; if (k !== undefined) try { v[k] = 'replaced member' } catch (e) {} }
+    if (i % 4 === 1) delete g[n];
+    if (i % 4 === 2) g[n] = 'rebound' + i;
+    if (i % 4 === 3 && isO) v.extra$ = {deep: i} });
+  return function(){ return gOPN(g).join() + '#' + keys(g).join() + '#' + names.map(function(n){ var d = gOPD(g, n), v = d && d.value, s = saved[n]; return n + ':' + typeof v + ':' + (v === s) + ':' + (d ? (d.writable ? 'w' : '-') + (d.enumerable ? 'e' : '-') + (d.configurable ? 'c' : '-') : 'gone') + ':' + (s && s.tag$) + ':' + (s && s.extra$ && s.extra$.deep) + ':' + (s && typeof s === 'object' ? gOPN(s).join('.') : '') }).join('|') } })(this);`},
+		muts:  []string{`console = 'again'`, `delete console`, `var console = {log: function(){ return 'mine' }}`, `escape = null`, `this.URIError = 1`, `NaN = 5; undefined = 6`, `delete isFinite; isFinite = parseInt`, `newglobal$ = 1`},
+		q:     []string{`gq$()`, `typeof console + ',' + typeof escape + ',' + typeof URIError + ',' + typeof isFinite + ',' + typeof newglobal$`},
+		both:  []string{`console = 'c' + typeof console`, `delete escape`, `lastglobal$ = 1`},
+		roots: []string{}, plain: []string{}},
 	{name: "getterstate", code: 16,
 		setup: []string{`var gs$ = (function(){ var log = []; var target = {v: 0}; var api = {}; Object.defineProperty(api, 'hit', {get: function(){ log.push(log.length); return log.length }, enumerable: false}); api.log = function(){ return log.join('') }; api.target = target; api.bump = function(){ target.v++; return api }; return api })();`},
 		muts:  []string{`gs$.hit`, `gs$.bump().bump()`, `gs$.target.v = 'direct'`, `gs$.hit; gs$.hit`, `gs$.target = {v: 'replaced'}`},
@@ -241,6 +259,20 @@ var (
 		muts: []string{`ca$ = function replaced(){ return who$() }`, `co$.m = ca$`, `cg$ = function(){ return cf$() }`, `who$.tag = 1`, `cb$ = cb$.bind(null)`},
 		q:    []string{`String(cg$())`, `[ca$(), cb$(), String(who$()), co$.m(), deep$(3), (function anon(){ return who$() })(), [1].map(function cbk(){ return who$() })[0]].join()`, `(function(){ var d = Object.getOwnPropertyDescriptor(who$, 'caller'); return typeof d.get + typeof d.set + d.enumerable + d.configurable })()`}}
 )
+
+var defGlobalsAll = feature{name: "globalsall", code: 24,
+	setup: []string{`var ga$ = (function(g){ var gOPN = Object.getOwnPropertyNames, gOPD = Object.getOwnPropertyDescriptor, saved = {}, names = gOPN(g);
+  for (var i = 0; i < names.length; i++) { var n = names[i]; if (n === '__dump' || n === '__callall') continue; var v = g[n]; saved[n] = v; var isO = (typeof v === 'object' && v !== null) || typeof v === 'function';
+    if (i % 4 === 0 && isO) try { v.tag$ = 'tag' + i } catch (e) {}
+    if (i % 4 === 1) try { delete g[n] } catch (e) {}
+    if (i % 4 === 2) try { g[n] = 'rebound' + i } catch (e) {}
+    if (i % 4 === 3 && isO) try { v.extra$ = {deep: i} } catch (e) {} }
+  return function(){ var now = gOPN(g), s = ''; for (var k = 0; k < now.length; k++) s += now[k] + ','; s += '#';
+    for (var i = 0; i < names.length; i++) { var n = names[i]; if (!(n in saved)) continue; var d = gOPD(g, n), v = d && d.value, sv = saved[n]; s += n + ':' + typeof v + ':' + (v === sv) + ':' + (d ? (d.writable ? 'w' : '-') + (d.enumerable ? 'e' : '-') + (d.configurable ? 'c' : '-') : 'gone') + ':' + (sv && sv.tag$) + ':' + (sv && sv.extra$ && sv.extra$.deep) + '|' }
+    return s } })(this);`},
+	muts:  []string{`ga$late = 1`},
+	q:     []string{`ga$()`},
+	roots: []string{}, plain: []string{}}
 
 func featureByName(n string) feature {
 	for _, f := range features {
@@ -490,8 +522,8 @@ func (p picked) qexpr() string {
 
 func runC17(env *Env) {
 	env.Import = "Otto.C17.Corr"
-	env.Rule = "scenario = setup history H (2-6 feature instances out of 26 kinds: closures sharing stashes, nested scopes, prototype chains, accessors, attributes and order, frozen/sealed, holders frozen/sealed/non-extensible before Copy() with getter-only/setter-only/both accessors over captured state (also behind a prototype, behind a closure, on a frozen array and function; every accessor run on copy and original in both orders), bound functions, arguments aliasing, modified built-ins, Date/RegExp/wrapper objects, arrays, with/catch/named-function scopes, cycles, sharing of one object of every class through several paths, global bindings, stateful getters, Error objects (constructed, thrown, interpreter-raised) whose message/name change after Copy() with stack/String/toString read on both sides, closures evaluating regexp/array/object/function literals, deletable/immutable scope bindings, host configuration (stack limit, random source, debugger handler, call.Otto), closures of functions with a parameter named arguments, global eval deleted / rebound to a primitive / to another function, functions inspecting f.caller (plain, bound, method, recursive, callback); run as separate programs and cross-linked), Copy(), then 2-7 rounds each mutating one runtime (original, copy, copy of copy, later copy) or taking a further copy; right after Copy() and in some rounds every parameterless script function of the heap is called (guarded) on a runtime and its replica and its result described (class, owning runtime, own properties); after every round every runtime is compared with its replica on all observation programs and on a script dump of its user heap; non-trivial = distinct scenario with at least one mutation round and at least 3 feature kinds, or a heap-dump case"
-	pinned := []feature{defArgParam, defEvalGone1, defEvalGone2, defEvalSwap, defCaller, featureByName("frozenacc"), featureByName("errors"), featureByName("literals")}
+	env.Rule = "scenario = setup history H (2-6 feature instances out of 27 kinds (plus a pinned one that vandalises every global binding): closures sharing stashes, nested scopes, prototype chains, accessors, attributes and order, frozen/sealed, holders frozen/sealed/non-extensible before Copy() with getter-only/setter-only/both accessors over captured state (also behind a prototype, behind a closure, on a frozen array and function; every accessor run on copy and original in both orders), bound functions, arguments aliasing (every subset of indices unmapped before Copy(), more and fewer actuals than formals), global built-in bindings aliased / extended / deleted / rebound before Copy() with the global property order observed, errors made at recursion depth, modified built-ins, Date/RegExp/wrapper objects, arrays, with/catch/named-function scopes, cycles, sharing of one object of every class through several paths, global bindings, stateful getters, Error objects (constructed, thrown, interpreter-raised) whose message/name change after Copy() with stack/String/toString read on both sides, closures evaluating regexp/array/object/function literals, deletable/immutable scope bindings, host configuration (stack limit, random source, debugger handler, call.Otto), closures of functions with a parameter named arguments, global eval deleted / rebound to a primitive / to another function, functions inspecting f.caller (plain, bound, method, recursive, callback); run as separate programs and cross-linked), Copy(), then 2-7 rounds each mutating one runtime (original, copy, copy of copy, later copy) or taking a further copy; right after Copy() and in some rounds every parameterless script function of the heap is called (guarded) on a runtime and its replica and its result described (class, owning runtime, own properties); after every round every runtime is compared with its replica on all observation programs and on a script dump of its user heap; non-trivial = distinct scenario with at least one mutation round and at least 3 feature kinds, or a heap-dump case"
+	pinned := []feature{defArgParam, defEvalGone1, defEvalGone2, defEvalSwap, defCaller, featureByName("frozenacc"), featureByName("errors"), featureByName("literals"), featureByName("arguments"), featureByName("globals"), defGlobalsAll}
 	const batch = 64
 	for base := 0; env.Count() < env.N; base += batch {
 		gens := make([]*gen, batch)
